@@ -18,7 +18,17 @@ class Sim:
         self.trace = []       # (op, [events], status)
         self.dead = None
 
+    OP_TIMEOUT = 240      # real seconds one op may take before the simulator is declared hung (busy loop) and killed
+
+    def _watchdog(self):
+        self.hung = True
+        try:
+            self.p.kill()
+        except Exception:
+            pass
+
     def op(self, line):
+        import threading
         self.script.append(line)
         try:
             self.p.stdin.write(line + "\n")
@@ -26,9 +36,21 @@ class Sim:
         except BrokenPipeError:
             self._died()
         ev = []
+        wd = threading.Timer(self.OP_TIMEOUT, self._watchdog)
+        wd.daemon = True
+        wd.start()
+        try:
+            return self._read_reply(line, ev)
+        finally:
+            wd.cancel()
+
+    def _read_reply(self, line, ev):
         while True:
             l = self.p.stdout.readline()
             if l == "":
+                if getattr(self, "hung", False):
+                    self.dead = f"HUNG: op `{line}` did not return within {self.OP_TIMEOUT} s of real time (busy loop); simulator killed"
+                    raise SimDied(self.dead)
                 self._died()
             l = l.rstrip("\n")
             if l.startswith("ev "):
